@@ -86,7 +86,9 @@ def run(ctx):
         ctx.count("attribute_sets_enumerated")
     if ctx.shard[0] == 0:
         # style values that are falsy without being False: off, like False (or refused)
-        for a in ({"bold": 0}, {"underline": None, "fg": 31}, {"italic": 0, "bold": True}, {"invert": None, "bg": 44}):
+        for a in ({"bold": 0}, {"underline": None, "fg": 31}, {"italic": 0, "bold": True}, {"invert": None, "bg": 44},
+                  # ... and truthy without being True: on, like True (or refused)
+                  {"dark": 1}, {"underline": 1, "fg": 31}, {"italic": 2}, {"blink": 1, "bold": 1}, {"invert": "yes"}):
             run_case(ctx, {"spec": [["a一\nb", a]], "unusual_values": True})
             run_case(ctx, {"spec": [NEIGH_L, ["pq", a], NEIGH_R], "unusual_values": True})
     ctx.exhaustive = True
